@@ -650,6 +650,15 @@ def corpus():
     return out
 
 
+def surrogate_corpus():
+    """search only (the correspondence leaves text with lone surrogates to C04): text strings holding lone surrogates —
+    a high one, one escaped byte, adjacent escaped bytes that spell valid UTF-8 ('caf\\udcc3\\udca9'), a pair in the wrong
+    order — alone, inside tuples, and echoed"""
+    pl = [["v", t] for t in ("S55296", "S56448", "S99,97,102,56515,56489", "S56515,56489", "S57343,55296", "S97,56832,98",
+                             "( S56515,56489 ( S55296 ) )", "[ S56515,56489 S56448 ]")]
+    return [[["send", False, [x]], ["echo", [x]], ["tables"]] for x in pl] + [[["send", True, pl[:4]], ["echo", pl[4:]], ["tables"]]]
+
+
 # ---------------------------------------------------------------------------------------------- statement-level extras
 def extras_mutation():
     """a change made through the reference is a change to the owner's object (real code only)"""
@@ -1015,7 +1024,7 @@ def oracle_search(ctx, corr, broken):
                 return res
         if time.time() > deadline:
             return None
-    for ops in corpus():
+    for ops in corpus() + surrogate_corpus():
         msg = oracle_conversation(ops)
         if msg:
             res = found(ops, msg)
